@@ -293,8 +293,14 @@ def ods_info(path):
             content = z.read("content.xml")
         import xml.etree.ElementTree as ET  # pylint: disable=import-outside-toplevel
 
-        ET.fromstring(content)
-        return {"readable": True, "digest": hashlib.sha256(content).hexdigest()[:16], "size": len(content)}
+        root = ET.fromstring(content)
+        # digest of every sheet on its own (what an asset's sheets show must not depend on which other assets are in the run)
+        sheets = {}
+        for tbl in root.iter("{urn:oasis:names:tc:opendocument:xmlns:table:1.0}table"):
+            name = tbl.get("{urn:oasis:names:tc:opendocument:xmlns:table:1.0}name")
+            body = b"".join(ET.tostring(row) for row in tbl.iter("{urn:oasis:names:tc:opendocument:xmlns:table:1.0}table-row"))
+            sheets[name] = hashlib.sha256(body).hexdigest()[:16]
+        return {"readable": True, "digest": hashlib.sha256(content).hexdigest()[:16], "size": len(content), "sheets": sheets}
     except Exception as exc:  # pylint: disable=broad-except
         return {"readable": False, "digest": "", "error": str(exc)[:200]}
 
